@@ -23,6 +23,10 @@ AlphaWide    == StackIns(4, 8, SUBSET (1..4) \ {{}}) \cup Probes
 D2 == << <<11 * Unit, 12 * Unit, 13 * Unit, 14 * Unit>>, <<21 * Unit, 22 * Unit, 23 * Unit, 24 * Unit>> >>
 AppsAll == {<<"F", "I">>, <<"I", "F">>, <<"F", "F">>, <<"I", "I">>}
 AppsRT  == {<<"F", "I">>, <<"I", "F">>}
+\* a small alphabet with the deprecated steps, for programs of three steps
+AlphaLegacy3 == {[a |-> "lpop", flags |-> {1}], [a |-> "lpop", flags |-> {1, 3}], [a |-> "lpush", flags |-> {2}],
+                 [a |-> "push", args |-> <<2>>], [a |-> "pop", args |-> <<1>>], [a |-> "flip", args |-> <<1>>],
+                 [a |-> "roll", m |-> 2, n |-> 1], [a |-> "add", e |-> 1, c |-> 1]}
 AppsFI  == {<<"F", "I">>}
 \* simulation of long programs: an alphabet biased towards pushes so that
 \* long programs do not all underflow at once
